@@ -111,6 +111,14 @@ MUTANTS = [
     ('connector pointing at a listener of the same proxy', [(['connectors'], 'SELF-LOOP'), (['rules', 0, 'target'], 'selfc')]),
     ('connector pointing at a listener of the same proxy by name', [(['connectors'], 'SELF-LOOP:localhost'), (['rules', 0, 'target'], 'selfc')]),
     ('socks connector pointing at the socks listener of the same proxy', [(['connectors'], 'SELF-LOOP:socks'), (['rules', 0, 'target'], 'selfc')]),
+    # other spellings of "this host" (the listener on 127.0.0.1 / on the wildcard address)
+    ('self-loop via 0.0.0.0', [(['connectors'], 'SELF-LOOP:0.0.0.0'), (['rules', 0, 'target'], 'selfc')]),
+    ('self-loop via 127.1', [(['connectors'], 'SELF-LOOP:127.1'), (['rules', 0, 'target'], 'selfc')]),
+    ('self-loop via 2130706433', [(['connectors'], 'SELF-LOOP:2130706433'), (['rules', 0, 'target'], 'selfc')]),
+    ('self-loop via 0x7f000001', [(['connectors'], 'SELF-LOOP:0x7f000001'), (['rules', 0, 'target'], 'selfc')]),
+    ('self-loop wildcard listener via 127.0.0.2', [(['listeners', 0, 'bind'], 'WILD'), (['connectors'], 'SELF-LOOP:127.0.0.2'), (['rules', 0, 'target'], 'selfc')]),
+    ('self-loop wildcard listener via ::ffff:127.0.0.1', [(['listeners', 0, 'bind'], 'WILD'), (['connectors'], 'SELF-LOOP:::ffff:127.0.0.1'), (['rules', 0, 'target'], 'selfc')]),
+    ('self-loop wildcard v6 listener via ::1', [(['listeners', 0, 'bind'], 'WILD6'), (['connectors'], 'SELF-LOOP:::1'), (['rules', 0, 'target'], 'selfc')]),
     ('lb hashBy runtime error', [(['connectors'], [{'name': 'direct'}, lb('a', ['direct'], algo={'hashBy': 'to_string(1 / (request.target.port - request.target.port))'})]), (['rules', 0, 'target'], 'a')]),
 ]
 # the listener `auth` sub-document: every combination of its three parts (the probe logs in as a listed user and as one
@@ -205,6 +213,10 @@ def one(m):
             val = cfg['listeners'][:1]
         if isinstance(val, str) and val.startswith('PLUS-TPROXY:'):
             val = cfg['listeners'] + [{'name': 'tp', 'type': 'tproxy', 'bind': f'127.0.0.1:{free_port()}', 'protocol': 'udp', 'maxUdpSocket': int(val.split(':')[1])}]
+        if val == 'WILD':
+            val = f'0.0.0.0:{hp}'
+        if val == 'WILD6':
+            val = f'[::]:{hp}'
         if isinstance(val, str) and val.startswith('SELF-LOOP'):
             how = val.partition(':')[2]
             val = [{'name': 'direct'}, {'name': 'selfc', 'type': 'socks', 'server': '127.0.0.1', 'port': sp}] if how == 'socks' else [{'name': 'direct'}, {'name': 'selfc', 'type': 'http', 'server': how or '127.0.0.1', 'port': hp}]
